@@ -37,6 +37,7 @@ func checkC15(c *Ctx) {
 	reach := c15Reach(p, eff, fns)
 	c.extra["functions_reachable_from_benchstat"] = len(reach)
 
+	c15Wrappers = findWrappers(p.Funcs(c15Pkgs...))
 	c15Maps(c, p, eff, reach)
 	c15Goroutines(c, p, eff)
 	c15Ambient(c, p, eff, reach)
@@ -179,28 +180,122 @@ func internSideObligation(p *Prog, fn *ssa.Function) (bool, string) {
 // ---- goroutines ----
 
 type goSite struct {
-	fn      *ssa.Function
-	goInstr *ssa.Go
-	closure *ssa.Function
+	fn      *ssa.Function   // where the fan-out site is (for a wrapper: the wrapper's caller)
+	goInstr ssa.Instruction // the go statement, or the call of the spawning wrapper
+	closure *ssa.Function   // the body that runs concurrently
 	mc      *ssa.MakeClosure
+	wrap    *wrapInfo // non-nil when the go statement itself sits in a wrapper that runs a function value it is given
+}
+
+// wrapInfo describes a spawning wrapper: a function S with a func() parameter whose only go statement runs a closure
+// that calls that parameter (spawn := func(f func()) { limit <- ...; wg.Add(1); go func() { f(); <-limit; wg.Done() }() }).
+type wrapInfo struct {
+	fn       *ssa.Function
+	goInstr  *ssa.Go
+	inner    *ssa.Function
+	innerMC  *ssa.MakeClosure
+	paramIdx int
+}
+
+// c15Wrappers is filled by c15Goroutines and consulted by the map-range classification (a call of a wrapper in a
+// loop body is a go statement of the function value passed to it).
+var c15Wrappers = map[*ssa.Function]*wrapInfo{}
+
+func findWrappers(fns []*ssa.Function) map[*ssa.Function]*wrapInfo {
+	out := map[*ssa.Function]*wrapInfo{}
+	for _, S := range fns {
+		var gos []*ssa.Go
+		eachInstr(S, func(_ *ssa.BasicBlock, in ssa.Instruction) {
+			if g, ok := in.(*ssa.Go); ok {
+				gos = append(gos, g)
+			}
+		})
+		if len(gos) != 1 {
+			continue
+		}
+		mc, ok := gos[0].Call.Value.(*ssa.MakeClosure)
+		if !ok {
+			continue
+		}
+		G := mc.Fn.(*ssa.Function)
+		idx := -1
+		eachInstr(G, func(_ *ssa.BasicBlock, in ssa.Instruction) {
+			call, ok := in.(*ssa.Call)
+			if !ok || call.Call.IsInvoke() || call.Call.StaticCallee() != nil {
+				return
+			}
+			if _, isB := call.Call.Value.(*ssa.Builtin); isB {
+				return
+			}
+			// the callee value: a load of a captured slot that holds one of S's parameters
+			la := loadAddr(call.Call.Value)
+			fv, ok := la.(*ssa.FreeVar)
+			if !ok {
+				return
+			}
+			for i, f := range G.FreeVars {
+				if f != fv {
+					continue
+				}
+				al, ok := mc.Bindings[i].(*ssa.Alloc)
+				if !ok {
+					continue
+				}
+				for _, r := range *al.Referrers() {
+					if st, ok := r.(*ssa.Store); ok && st.Addr == al {
+						for k, prm := range S.Params {
+							if st.Val == prm {
+								idx = k
+							}
+						}
+					}
+				}
+			}
+		})
+		if idx >= 0 {
+			out[S] = &wrapInfo{fn: S, goInstr: gos[0], inner: G, innerMC: mc, paramIdx: idx}
+		}
+	}
+	return out
 }
 
 func c15Goroutines(c *Ctx, p *Prog, eff *effects) {
 	var sites []goSite
-	for _, fn := range p.Funcs(c15Pkgs...) {
+	fns := p.Funcs(c15Pkgs...)
+	wrappers := findWrappers(fns)
+	c15Wrappers = wrappers
+	for _, fn := range fns {
 		eachInstr(fn, func(_ *ssa.BasicBlock, in ssa.Instruction) {
-			g, ok := in.(*ssa.Go)
-			if !ok {
-				return
+			switch g := in.(type) {
+			case *ssa.Go:
+				if wrappers[fn] != nil && wrappers[fn].goInstr == g {
+					return // judged at each call of the wrapper
+				}
+				gs := goSite{fn: fn, goInstr: g}
+				if mc, ok := g.Call.Value.(*ssa.MakeClosure); ok {
+					gs.mc = mc
+					gs.closure = mc.Fn.(*ssa.Function)
+				} else if sc := g.Call.StaticCallee(); sc != nil {
+					gs.closure = sc
+				}
+				sites = append(sites, gs)
+			case *ssa.Call:
+				w := wrappers[g.Call.StaticCallee()]
+				if w == nil {
+					return
+				}
+				gs := goSite{fn: fn, goInstr: g, wrap: w}
+				args := g.Call.Args
+				if w.paramIdx < len(args) {
+					if mc, ok := stripConv(args[w.paramIdx]).(*ssa.MakeClosure); ok {
+						gs.mc = mc
+						gs.closure = mc.Fn.(*ssa.Function)
+					} else if f, ok := stripConv(args[w.paramIdx]).(*ssa.Function); ok {
+						gs.closure = f
+					}
+				}
+				sites = append(sites, gs)
 			}
-			gs := goSite{fn: fn, goInstr: g}
-			if mc, ok := g.Call.Value.(*ssa.MakeClosure); ok {
-				gs.mc = mc
-				gs.closure = mc.Fn.(*ssa.Function)
-			} else if sc := g.Call.StaticCallee(); sc != nil {
-				gs.closure = sc
-			}
-			sites = append(sites, gs)
 		})
 	}
 	c.Floor("C15/R2", "go statements in scope", len(sites), 2)
@@ -236,27 +331,65 @@ func slotOf(v ssa.Value) ssa.Value {
 	return v
 }
 
-// wgRoot identifies the WaitGroup object: an Alloc in the spawning function, possibly reached through a closure binding.
-func wgRoot(v ssa.Value, gs *goSite) ssa.Value {
-	if fv, ok := v.(*ssa.FreeVar); ok && gs != nil && gs.mc != nil {
-		for i, f := range gs.closure.FreeVars {
+// closureCtx: a closure function together with the MakeClosure that created it (to map captured variables outward).
+type closureCtx struct {
+	fn *ssa.Function
+	mc *ssa.MakeClosure
+}
+
+// resolveOut maps a captured variable outward through the given closure creations (innermost first) to the slot in
+// the outermost function.
+func resolveOut(v ssa.Value, ctx []closureCtx) ssa.Value {
+	for _, cx := range ctx {
+		fv, ok := v.(*ssa.FreeVar)
+		if !ok || cx.mc == nil {
+			break
+		}
+		found := false
+		for i, f := range cx.fn.FreeVars {
 			if f == fv {
-				return gs.mc.Bindings[i]
+				v = cx.mc.Bindings[i]
+				found = true
 			}
+		}
+		if !found {
+			break
 		}
 	}
 	return v
 }
 
+// wgRoot identifies the WaitGroup object: an Alloc in the spawning function, possibly reached through a closure binding.
+func wgRoot(v ssa.Value, gs *goSite) ssa.Value {
+	if gs == nil {
+		return v
+	}
+	return resolveOut(v, []closureCtx{{gs.closure, gs.mc}})
+}
+
 func c15Join(c *Ctx, p *Prog, gs goSite, key, site string, all []goSite) {
 	const R = "C15/R2"
+	// where the go statement is, which function must call Done, and how their captured variables map outward
+	spawnFn, doneFn := gs.fn, gs.closure
+	var spawnGo ssa.Instruction = gs.goInstr
+	ctxDone := []closureCtx{{gs.closure, gs.mc}}
+	var ctxSpawn []closureCtx
+	if gs.wrap != nil {
+		spawnFn, doneFn, spawnGo = gs.wrap.fn, gs.wrap.inner, gs.wrap.goInstr
+		var wmc *ssa.MakeClosure
+		if call, ok := gs.goInstr.(*ssa.Call); ok {
+			wmc, _ = call.Call.Value.(*ssa.MakeClosure)
+		}
+		ctxDone = []closureCtx{{gs.wrap.inner, gs.wrap.innerMC}, {gs.wrap.fn, wmc}}
+		ctxSpawn = []closureCtx{{gs.wrap.fn, wmc}}
+	}
 	// Done in the body on every path
 	var wg ssa.Value
 	doneOK := false
 	var doneBlocks []*ssa.BasicBlock
-	eachInstr(gs.closure, func(b *ssa.BasicBlock, in ssa.Instruction) {
+	eachInstr(doneFn, func(b *ssa.BasicBlock, in ssa.Instruction) {
 		if recv, ok := isWaitGroupCall(in, "Done"); ok {
-			wg = wgRoot(recv, &gs)
+			wg = resolveOut(recv, ctxDone)
 			doneBlocks = append(doneBlocks, b)
 			if _, isDefer := in.(*ssa.Defer); isDefer {
 				doneOK = true
@@ -269,7 +402,7 @@ func c15Join(c *Ctx, p *Prog, gs goSite, key, site string, all []goSite) {
 	}
 	if !doneOK {
 		doneOK = true
-		for _, b := range gs.closure.Blocks {
+		for _, b := range doneFn.Blocks {
 			if _, ok := b.Instrs[len(b.Instrs)-1].(*ssa.Return); ok {
 				cov := false
 				for _, d := range doneBlocks {
@@ -286,29 +419,29 @@ func c15Join(c *Ctx, p *Prog, gs goSite, key, site string, all []goSite) {
 	c.Check(doneOK, R, key+":done", site, "Done is called on every path of the body", "some path through the goroutine body returns without calling Done: Wait would block forever or, worse, be satisfied by another goroutine's Done")
 	// Add before go
 	addOK := false
-	eachInstr(gs.fn, func(_ *ssa.BasicBlock, in ssa.Instruction) {
-		if recv, ok := isWaitGroupCall(in, "Add"); ok && recv == wg && instrDominates(in, gs.goInstr) {
+	eachInstr(spawnFn, func(_ *ssa.BasicBlock, in ssa.Instruction) {
+		if recv, ok := isWaitGroupCall(in, "Add"); ok && resolveOut(recv, ctxSpawn) == wg && instrDominates(in, spawnGo) {
 			addOK = true
 		}
 	})
 	c.Check(addOK, R, key+":add", site, "WaitGroup.Add dominates the go statement", "the WaitGroup is not incremented before the goroutine starts: Wait can return before the goroutine has run")
 	// limiter: a send on a channel before go, a receive from the same channel on every path of the body
 	var sendCh ssa.Value
-	eachInstr(gs.fn, func(_ *ssa.BasicBlock, in ssa.Instruction) {
-		if sd, ok := in.(*ssa.Send); ok && instrDominates(in, gs.goInstr) && sd.Block() == gs.goInstr.Block() {
-			sendCh = slotOf(sd.Chan)
+	eachInstr(spawnFn, func(_ *ssa.BasicBlock, in ssa.Instruction) {
+		if sd, ok := in.(*ssa.Send); ok && instrDominates(in, spawnGo) && sd.Block() == spawnGo.Block() {
+			sendCh = resolveOut(slotOf(sd.Chan), ctxSpawn)
 		}
 	})
 	if sendCh != nil {
 		recvOK := false
 		var recvBlocks []*ssa.BasicBlock
-		eachInstr(gs.closure, func(b *ssa.BasicBlock, in ssa.Instruction) {
-			if u, ok := in.(*ssa.UnOp); ok && u.Op == token.ARROW && wgRoot(slotOf(u.X), &gs) == sendCh {
+		eachInstr(doneFn, func(b *ssa.BasicBlock, in ssa.Instruction) {
+			if u, ok := in.(*ssa.UnOp); ok && u.Op == token.ARROW && resolveOut(slotOf(u.X), ctxDone) == sendCh {
 				recvBlocks = append(recvBlocks, b)
 			}
 		})
 		recvOK = len(recvBlocks) > 0
-		for _, b := range gs.closure.Blocks {
+		for _, b := range doneFn.Blocks {
 			if _, ok := b.Instrs[len(b.Instrs)-1].(*ssa.Return); ok {
 				cov := false
 				for _, d := range recvBlocks {
